@@ -30,6 +30,7 @@ pub struct CommandWriter<T: Send + Copy>(Input<Option<T>>);
 impl<T: Send + Copy> CommandWriter<T> {
 	/** Writes a new value, overwriting any previous values. */
 	pub fn write(&mut self, command: T) {
+		verif_hook!("cmd.write.pre", self as *const Self as usize, 0);
 		self.0.write(Some(command))
 	}
 }
@@ -45,6 +46,7 @@ impl<T: Send + Copy> CommandReader<T> {
 	 */
 	#[must_use]
 	pub fn read(&mut self) -> Option<T> {
+		verif_hook!("cmd.read.pre", self as *const Self as usize, 0);
 		if self.0.update() {
 			*self.0.output_buffer_mut()
 		} else {
